@@ -48,13 +48,16 @@ def noEvents (es : List Day) : Prop := ∀ d ∈ es, d.accs = [] ∧ d.caps = []
 
 def newLots (es : List Day) : List (Int × Rat) := (es.map buyOrd).flatten.map (fun o => (o, (0 : Rat)))
 
-theorem prepassDay_noEvents (t : String) (lots : List Lot) (d : Day) (hinv : LotsInv lots) (hB : 0 ≤ d.B) (h : d.accs = [] ∧ d.caps = []) :
+theorem prepassDay_noEvents (t : String) (lots : List Lot) (d : Day) (hinv : LotsInv lots) (hB : 0 ≤ d.B) (hr : 0 < d.r) (h : d.accs = [] ∧ d.caps = []) :
     ∃ lots', prepassDay t lots d = .ok lots' ∧ LotsInv lots' ∧ lotKeys lots' = lotKeys lots ++ (buyOrd d).map (fun o => (o, (0 : Rat))) := by
   unfold prepassDay
   simp only [h.1, h.2, List.foldl_nil, applyCaps]
   cases hb : d.buy with
   | none =>
-    obtain ⟨c1, c2, c3⟩ := sellsFold_props d.ord d.sells lots hinv
+    obtain ⟨c1', c2', c3'⟩ := sellsFold_props d.ord d.sells lots hinv
+    obtain ⟨c1, s2, s3⟩ := scale_props d.r hr _ c1'
+    have c2 := s2.trans c2'
+    have c3 := s3.trans c3'
     refine ⟨_, rfl, c1, ?_⟩
     simp only [buyOrd, hb, List.map_nil, List.append_nil]
     exact lotKeys_of _ _ c3 c2
@@ -67,7 +70,10 @@ theorem prepassDay_noEvents (t : String) (lots : List Lot) (d : Day) (hinv : Lot
       · simp only [Lot.held]
         have : d.B = b.q := by simp [Day.B, hb]
         rw [this] at hB; grind
-    obtain ⟨c1, c2, c3⟩ := sellsFold_props d.ord d.sells _ hinv'
+    obtain ⟨c1', c2', c3'⟩ := sellsFold_props d.ord d.sells _ hinv'
+    obtain ⟨c1, s2, s3⟩ := scale_props d.r hr _ c1'
+    have c2 := s2.trans c2'
+    have c3 := s3.trans c3'
     refine ⟨_, rfl, c1, ?_⟩
     rw [lotKeys_of _ _ c3 c2]
     simp [lotKeys, buyOrd, hb]
@@ -79,7 +85,7 @@ theorem prepass_noEvents (t : String) : ∀ (es : List Day) (lots : List Lot), L
   | nil => intro lots _ _ _; exact ⟨lots, rfl, by simp [newLots]⟩
   | cons d es ih =>
     intro lots hinv hok hne
-    obtain ⟨l1, h1, i1, k1⟩ := prepassDay_noEvents t lots d hinv hok.1.2.2 (hne d (by simp))
+    obtain ⟨l1, h1, i1, k1⟩ := prepassDay_noEvents t lots d hinv hok.1.2.2 hok.1.1 (hne d (by simp))
     obtain ⟨l2, h2, k2⟩ := ih l1 i1 hok.2 (fun x hx => hne x (by simp [hx]))
     refine ⟨l2, ?_, ?_⟩
     · simp only [prepass, h1]; exact h2
